@@ -32,8 +32,8 @@ def gen_protocol(r):
 
 def protocol_correspondence(res, rng, driver, hv, n):
     """BCRaw.v (the model theorem C06_protocol_safe is about) vs runtime::Memory: the model's log
-    drives the implementation through the same history; every probe must hit/miss as the model
-    says, every operand cell must test accessible before it is dereferenced, every read must
+    drives the implementation through the same history (probes are adaptive: which of them miss depends
+    on the growth policy, which only has to satisfy PolicyOK), every operand cell must test accessible before it is dereferenced, every read must
     return the model's value"""
     hist = [gen_protocol(rng.fork()) for _ in range(n)]
     # a third of the histories enter on a tape that already exists (a reused context: a small range was made
@@ -60,11 +60,11 @@ def protocol_correspondence(res, rng, driver, hv, n):
                 hit = log[li] == "p=1"; li += 1
                 d = int(f[1])
                 probe = mn if d < 0 else mx
-                iops += ["m:%d" % d, "c:%d" % probe]
-                want += ["-", "c=%d" % (1 if hit else 0)]
-                if not hit:
-                    # interpreter: the whole window; JIT: the probed cell only
-                    iops.append("a:%d:%d" % ((mn, mx + 1) if f[0] == "m" else (probe, probe + 1))); want.append("-")
+                # the probe is adaptive on the implementation side (test the window end; request only on a miss —
+                # interpreter: the whole window, JIT: the probed cell): whether it hits depends on the growth
+                # policy, which the property does not fix (C06_protocol_safe holds for every PolicyOK policy)
+                iops += ["m:%d" % d, "p:%d:%d:%d" % ((probe, mn, mx + 1) if f[0] == "m" else (probe, probe, probe + 1))]
+                want += ["-", "p=%d" % (1 if hit else 0)]
             elif f[0] == "g":
                 v = log[li][2:]; li += 1
                 iops += ["c:%s" % f[1], "r:%s" % f[1]]
@@ -79,9 +79,12 @@ def protocol_correspondence(res, rng, driver, hv, n):
     rep = 0
     for (mn, mx, ops), want, line, r, ml in zip(hist, plans, ilines, iout, mlines):
         got = r.split(" | ")[0].split()
-        st["probe_misses"] += sum(1 for x in want if x == "c=0")
+        st["probe_misses"] += sum(1 for x in got if x == "p=0")
         facts_ok = r.endswith("facts:ok")
-        if got == want and facts_ok:
+        # probe outcomes are compared with the model's (rust_policy) only for the statistics
+        st["probe_outcomes_unlike_rust_policy"] = st.get("probe_outcomes_unlike_rust_policy", 0) + sum(1 for g, wv in zip(got, want) if wv.startswith("p=") and g != wv)
+        same = len(got) == len(want) and all(g == wv or (wv.startswith("p=") and g.startswith("p=")) for g, wv in zip(got, want))
+        if same and facts_ok:
             continue
         # an operand cell that is not accessible when it is dereferenced is a real out-of-bounds access
         oob = any(g == "c=0" and wv == "c=1" for g, wv in zip(got, want))
